@@ -111,6 +111,11 @@ def check_overlap_matcher(ctx, rules=("PATHCOUNT", "TIME", "CONT")):
         if len(ext) == 1:
             c = ext[0]
             recv = U(c.func.value)
+            if isinstance(c.func.value, ast.Name):
+                # `(t,) = L; t.append(…)` / `t = L[0]; t.append(…)` ≡ `L[0].append(…)`
+                r_ = fv.single_def_value(c.func.value.id, c)
+                if r_ is not None and isinstance(r_[0], ast.Subscript) and isinstance(r_[0].value, ast.Name) and U(r_[0].slice) == "0":
+                    recv = U(r_[0])
             coll = recv[:-3] if recv.endswith("[0]") else None
             detail = f"continuation receiver `{recv}`"
             if coll is not None:
@@ -196,7 +201,13 @@ def check_distance_matcher(ctx, rules=("PATHCOUNT", "TIME", "INDEX", "GREEDY", "
                    f"distance matrix is built from rows {rows[:2]} and columns {cols[:2]}; expected the alive tracks' last positions × the frame's droplet positions")
         if len(ext) == 1:
             c, d, t = ext[0]
-            ok = U(c.func.value) == f"{alive_p}[{r}]" and U(d) == f"{em_p}[{c_}]"
+            recv_ = c.func.value
+            if isinstance(recv_, ast.Name):  # a temporary naming the selected track
+                rr_ = fv.single_def_value(recv_.id, c)
+                if rr_ is not None:
+                    recv_ = rr_[0]
+            d_ = fv.expand(d, c, stop=(em_p, c_)) if isinstance(d, ast.Name) else d
+            ok = U(recv_) == f"{alive_p}[{r}]" and U(d_) == f"{em_p}[{c_}]"
             ctx.decide(ok, "INDEX", site + ":link", (fi, c), f"row index `{r}` selects the track, column index `{c_}` the droplet",
                        f"`{U(c)[:70]}`: the row index `{r}` must select the alive track and the column index `{c_}` the frame's droplet")
         else:
@@ -285,7 +296,7 @@ def check_main_loop(ctx, rules=("FLOW", "TIME")):
     si = stmt_index(ov)
     site = OUTER + ":frames"
     tc = outer.params[1] if len(outer.params) > 1 else "time_course"
-    loops = [s for s in ov.statements() if isinstance(s, ast.For) and f"{tc}.items()" in U(s.iter)]
+    loops = [s for s in ov.statements() if isinstance(s, ast.For) and f"{tc}.items()" in U(ov.expand(s.iter, s))]
     if len(loops) != 1:
         ctx.undecided("FLOW", site, outer, "frame loop over time_course.items() not found")
         return
@@ -295,12 +306,17 @@ def check_main_loop(ctx, rules=("FLOW", "TIME")):
         return
     tv, ev = U(lp.target.elts[0]), U(lp.target.elts[1])
     # iterable: items() possibly wrapped by display_progress
-    it = lp.iter
+    it = ov.expand(lp.iter, lp)
     while isinstance(it, ast.Call) and (dotted(it.func) or "").endswith("display_progress") and it.args:
         it = it.args[0]
     ok_it = U(it) == f"{tc}.items()"
     calls = [c for c in ov.calls() if isinstance(c.func, ast.Name) and c.func.id == "match_tracks" and any(x is c for x in ast.walk(lp))]
-    tl = [s for s in ast.walk(lp) if isinstance(s, ast.Assign) and U(s.targets[0]) == "t_last"]
+    # the "time of the previous frame" variable: assigned from the frame's time inside the loop, read by the alive filter
+    tl_name = "t_last"
+    cand_tl = [s for s in ast.walk(lp) if isinstance(s, ast.Assign) and isinstance(s.targets[0], ast.Name) and U(s.value) == tv]
+    if len({U(s.targets[0]) for s in cand_tl}) == 1:
+        tl_name = U(cand_tl[0].targets[0])
+    tl = [s for s in ast.walk(lp) if isinstance(s, ast.Assign) and U(s.targets[0]) == tl_name]
     alive = [s for s in ast.walk(lp) if isinstance(s, ast.Assign) and U(s.targets[0]) == "tracks_alive"]
     paths = paths_through_body(ov, lp)
     head = ov.node_of(lp)
@@ -336,7 +352,7 @@ def check_main_loop(ctx, rules=("FLOW", "TIME")):
         ctx.decide(ok_tl, "FLOW", site + ":t_last", (outer, tl[0]) if tl else (outer, lp),
                    "the previous-frame time is updated on every path through the frame loop",
                    "`t_last` is not set to the frame's time on every path through the frame loop (e.g. skipped for frames without droplets): tracks that ended earlier stay 'alive' across the gap and are continued, so tracks are no longer gap-free runs of consecutive frames")
-        init = [s for s in ov.statements() if isinstance(s, ast.Assign) and U(s.targets[0]) == "t_last" and not any(x is s for x in ast.walk(lp))]
+        init = [s for s in ov.statements() if isinstance(s, ast.Assign) and U(s.targets[0]) == tl_name and not any(x is s for x in ast.walk(lp))]
         ok_init = len(init) == 1 and isinstance(init[0].value, ast.Constant) and init[0].value.value is None
         ok_alive = False
         if len(calls) == 1:
@@ -347,7 +363,7 @@ def check_main_loop(ctx, rules=("FLOW", "TIME")):
                 fc = filtered_collection(ov, a_al.id, calls[0])
                 if fc is not None:
                     src, cond, dstmt = fc
-                    ok_alive = src == "tracks" and cond in ("_.end == t_last", "t_last == _.end") and any(x is dstmt for x in ast.walk(lp)) \
+                    ok_alive = src == "tracks" and cond in (f"_.end == {tl_name}", f"{tl_name} == _.end") and any(x is dstmt for x in ast.walk(lp)) \
                         and (not tl or ov.dominates(calls[0], tl[0]))
                     alive = [dstmt]
         ctx.decide(ok_alive and ok_init, "FLOW", site + ":alive", (outer, alive[0]) if alive else (outer, lp),
